@@ -427,6 +427,11 @@ def max_over_all(ctx, body, arg_names, effects, base, elem, elem_of, source, nee
             if accept_atom is not None and accept_atom(a, v, info, r):
                 continue
             return False, f"the result depends on a condition besides the length of the collection: {a[:100]} = {v}", n
+        # a maximum needs the whole collection: the iteration must have run to its end (the last next() returned None)
+        outcomes = [v for a, v in r.cond if r.atom_info.get(a, {}).get('kind') == 'variant' and isinstance(T.strip_refs(r.atom_info[a]['of']), tuple)
+                    and T.strip_refs(r.atom_info[a]['of'])[0] == 'eff' and re.search(NEXT, T.strip_refs(r.atom_info[a]['of'])[1])]
+        if outcomes and outcomes[-1] != 'None':
+            return False, f"the result ({r.long(repr(r.result))[:80]}) is returned after {len(outcomes)} element(s) without examining the rest of the collection (first match instead of maximum)", n
         if counts is not None:
             present = [k for k in present if counts(k, r)]
         leaves = [T.strip_refs(l) for l in T.max_leaves(I_x(r.result))]
